@@ -63,23 +63,52 @@ open MLPE
       · simp only [ih]; simp
     · simp
 
+theorem core_cbThen (c : Ctx) (s : St) (obs : List Obs) (frames : Nat → List Frame) (m : Nat)
+    (k : St → List Obs → Out) (hk : ∀ s' obs', (k s' obs').1.core = s'.core) :
+    (cbThen c s obs frames m k).1.core = s.core := by
+  unfold cbThen
+  split
+  · exact hk _ _
+  · simp
+
+@[simp] theorem core_nodeFinish (c : Ctx) (s : St) (obs : List Obs) (d : DagRef) (n : Node) (below : List Frame) :
+    (nodeFinish c s obs d n below).1.core = s.core := by
+  simp [nodeFinish]
+
 @[simp] theorem core_nodePost (c : Ctx) (s : St) (obs : List Obs) (d : DagRef) (n : Node) (below : List Frame)
     (v : Val) (e : Bool) : (nodePost c s obs d n below v e).1.core = s.core := by
   unfold nodePost
+  simp only []
+  split
+  · rw [core_cbThen _ _ _ _ _ _ (fun s' obs' => core_nodeFinish _ _ _ _ _ _)]
+    split <;> simp
+  · split <;> simp
+
+@[simp] theorem core_nodeFailCont (c : Ctx) (s : St) (obs : List Obs) (d : DagRef) (n : Node) (below : List Frame)
+    (e : Exc) : (nodeFailCont c s obs d n below e).1.core = s.core := by
+  unfold nodeFailCont
   split <;> simp
 
 @[simp] theorem core_nodeFail (c : Ctx) (s : St) (obs : List Obs) (d : DagRef) (n : Node) (below : List Frame)
     (e : Exc) : (nodeFail c s obs d n below e).1.core = s.core := by
   unfold nodeFail
-  split <;> simp
+  exact core_cbThen _ _ _ _ _ _ (fun s' obs' => core_nodeFailCont _ _ _ _ _ _ _)
 
 @[simp] theorem core_nodeSuccess (c : Ctx) (s : St) (obs : List Obs) (d : DagRef) (n : Node) (below : List Frame)
     (v : Val) : (nodeSuccess c s obs d n below v).1.core = s.core := by
-  simp [nodeSuccess]
+  unfold nodeSuccess
+  exact core_cbThen _ _ _ _ _ _ (fun s' obs' => core_nodePost _ _ _ _ _ _ _ _)
 
 @[simp] theorem core_nodeDefault (c : Ctx) (s : St) (obs : List Obs) (d : DagRef) (n : Node) (below : List Frame)
     (kw : Kwargs) : (nodeDefault c s obs d n below kw).1.core = s.core := by
   simp [nodeDefault]
+
+@[simp] theorem core_nodeSleep (c : Ctx) (s : St) (obs : List Obs) (d : DagRef) (n : Node) (force : Bool)
+    (below : List Frame) (k : Nat) (kw : Kwargs) (inv : Nat) :
+    (nodeSleep c s obs d n force below k kw inv).1.core = s.core := by
+  unfold nodeSleep
+  simp only []
+  split <;> simp
 
 @[simp] theorem core_nodeAfterBody (c : Ctx) (s : St) (obs : List Obs) (d : DagRef) (n : Node) (force : Bool)
     (below : List Frame) (k : Nat) (kw : Kwargs) (inv : Nat) (o : BodyOutcome) :
@@ -89,7 +118,7 @@ open MLPE
   · simp
   · simp only []
     repeat' split
-    all_goals simp
+    all_goals (first | simp | exact core_cbThen _ _ _ _ _ _ (fun s' obs' => core_nodeSleep _ _ _ _ _ _ _ _ _ _))
 
 @[simp] theorem core_nodeAttempt (c : Ctx) (s : St) (obs : List Obs) (d : DagRef) (n : Node) (force : Bool)
     (below : List Frame) (k : Nat) (kw : Kwargs) (inv : Nat) :
@@ -139,18 +168,32 @@ open MLPE
     (recFinish c s obs n start below).1.core = s.core := by
   simp [recFinish]
 
+@[simp] theorem core_mgrReturn (c : Ctx) (s : St) (obs : List Obs) (o : Outcome) :
+    (mgrReturn c s obs o).1.core = s.core := by
+  simp [mgrReturn]
+
+@[simp] theorem core_mgrComplete (c : Ctx) (s : St) (obs : List Obs) (o : Outcome) :
+    (mgrComplete c s obs o).1.core = s.core := by
+  unfold mgrComplete
+  split
+  · simp
+  · exact core_cbThen _ _ _ _ _ _ (fun s' obs' => core_mgrReturn _ _ _ _)
+
 @[simp] theorem core_mgrFinish (c : Ctx) (s : St) (obs : List Obs) : (mgrFinish c s obs).1.core = s.core := by
   simp [mgrFinish]
 
 @[simp] theorem core_mgrCheck (c : Ctx) (s : St) (obs : List Obs) : (mgrCheck c s obs).1.core = s.core := by
   unfold mgrCheck; split <;> simp
 
-@[simp] theorem core_mgrStart (c : Ctx) (s : St) (obs : List Obs) : (mgrStart c s obs).1.core = s.core := by
-  unfold mgrStart
-  simp only []
+@[simp] theorem core_mgrBegin (c : Ctx) (s : St) (obs : List Obs) : (mgrBegin c s obs).1.core = s.core := by
+  unfold mgrBegin
   split
   · simp
   · split <;> simp
+
+@[simp] theorem core_mgrStart (c : Ctx) (s : St) (obs : List Obs) : (mgrStart c s obs).1.core = s.core := by
+  unfold mgrStart
+  exact core_cbThen _ _ _ _ _ _ (fun s' obs' => core_mgrBegin _ _ _)
 
 @[simp] theorem core_deliverCancel (c : Ctx) (s : St) (tk : Task) : (deliverCancel c s tk).1.core = s.core := by
   unfold deliverCancel
